@@ -44,10 +44,10 @@ func (c *checkSchema) checkType(name string, typ schema.Type, ss map[string]sche
 			return
 		}
 
-		// Return an error with the full set of bytes of the root schema.
+		// The error already refers to the file and offset of the lexeme it was
+		// found at (which, for properties inherited through "allOf", belongs to
+		// another type's text): only tag it with the type being checked.
 		if documentError, ok := r.(errors.DocumentError); ok {
-			documentError.SetFile(typ.RootFile())
-			documentError.SetIndex(documentError.Index() + typ.Begin())
 			documentError.SetIncorrectUserType(name)
 			panic(documentError)
 		}
